@@ -204,8 +204,195 @@ func ruleDupCheck(c *Ctx, rule string, inst *handlerInstall) {
 			return !foundEdge
 		}}
 	})
+	if reach && c.dupCheckedOnLookedUpNode(inst) {
+		reach, path = false, ""
+	}
 	o := c.R.Add(rule, c.fk(inst.f), fmt.Sprintf("install:%s/on:%s/requires:not-present", an.AP(k), inst.x), c.pos(inst.in), !reach, ifelse(!reach, "install only behind the not-found edge of the presence test", "a method can be installed over an existing registration: a duplicate pattern+method is not rejected"))
 	o.Path = path
+}
+
+// dupCheckedOnLookedUpNode: the installer receives the method list as a parameter, and at every call site a
+// validating function ran before (its error checked) on the same list and on the node *looked up* under the same
+// pattern the installer's node is obtained with — `checkMethods(tree.Find(pattern), methods)` before
+// `getNode(Split(pattern))`. In the validator every element found present in that node's handler map is rejected
+// (a nil node has nothing to duplicate).
+func (c *Ctx) dupCheckedOnLookedUpNode(inst *handlerInstall) bool {
+	a := c.A
+	_, sl, isElem := an.RangeLoopOf(inst.in.Key)
+	if !isElem {
+		return false
+	}
+	par, ok := sl.(*ssa.Parameter)
+	if !ok {
+		return false
+	}
+	f := inst.f
+	idx := -1
+	for i, p := range f.Params {
+		if p == par {
+			idx = i
+		}
+	}
+	sites := callSitesOf[an.Origin(f)]
+	if idx < 0 || len(sites) == 0 {
+		return false
+	}
+	for _, site := range sites {
+		caller := siteParent(site)
+		args := an.CallArgs(site)
+		if caller == nil || idx >= len(args) || len(args) == 0 {
+			return false
+		}
+		var siteInstr ssa.Instruction
+		an.AllInstrs(caller, func(in ssa.Instruction) {
+			if an.CallOf(in) == site {
+				siteInstr = in
+			}
+		})
+		if siteInstr == nil {
+			return false
+		}
+		listAP := an.AP(args[idx])
+		nodeTerm := c.O.Of(args[0]).String() // how the installer's node is obtained
+		okSite := false
+		an.AllInstrs(caller, func(in ssa.Instruction) {
+			vcall, isCall := in.(*ssa.Call)
+			if !isCall || okSite || in == siteInstr {
+				return
+			}
+			v := an.StaticCallee(&vcall.Call)
+			if v == nil || !an.InModule(v) || an.ErrorResultIndex(v) < 0 {
+				return
+			}
+			vargs := an.CallArgs(&vcall.Call)
+			lidx, nidx := -1, -1
+			for i, av := range vargs {
+				if an.AP(av) == listAP {
+					lidx = i
+				}
+				if isPtrToNamed(av.Type(), a.NodeT) {
+					nidx = i
+				}
+			}
+			if lidx < 0 || nidx < 0 || lidx >= len(v.Params) || nidx >= len(v.Params) {
+				return
+			}
+			// the validated node is looked up under a pattern that also determines the installer's node
+			lookup, isLookup := vargs[nidx].(*ssa.Call)
+			if !isLookup {
+				return
+			}
+			lf := an.StaticCallee(&lookup.Call)
+			if lf == nil || !an.InModule(lf) {
+				return
+			}
+			samePattern := false
+			for _, la := range an.CallArgs(&lookup.Call) {
+				if isStringType(la.Type()) {
+					if t := c.O.Of(la).String(); strings.Contains(nodeTerm, t) {
+						samePattern = true
+					}
+				}
+			}
+			if !samePattern {
+				return
+			}
+			// the validator's error is checked before the installer runs
+			errVal := ssa.Value(vcall)
+			passes := (&an.Query{
+				Target: func(t ssa.Instruction) bool { return t == siteInstr },
+				BlockEdge: func(b *ssa.BasicBlock, succ int) bool {
+					cond, onTrue := an.EdgeCond(b, succ)
+					if cond == nil {
+						return false
+					}
+					x, kc, eq, ok := an.CondAtom(cond)
+					return ok && kc.Value == nil && x == errVal && eq == onTrue
+				},
+			}).Search(an.Entry(caller)) == nil
+			if !passes {
+				return
+			}
+			// in the validator: an element present in the node's handler map never reaches the next element or a
+			// successful return
+			vlist, vnode := v.Params[lidx], v.Params[nidx]
+			good := false
+			for _, l := range rangeLoops(v) {
+				if l.slice != ssa.Value(vlist) {
+					continue
+				}
+				good = len(l.elems) > 0
+				for _, e := range l.elems {
+					e := e
+					q := &an.Query{
+						BlockEdge: func(b *ssa.BasicBlock, succ int) bool {
+							cond, onTrue := an.EdgeCond(b, succ)
+							if cond == nil {
+								return false
+							}
+							vv, neg := stripNot(cond)
+							// node == nil: nothing registered yet
+							if x, kc, eq, ok := an.CondAtom(cond); ok && kc.Value == nil && x == ssa.Value(vnode) {
+								return eq == onTrue
+							}
+							// the found flag of the lookup of this element in the node's handler map — directly, or through a
+							// local that is false unless that lookup (behind `node != nil`) set it
+							var isFound func(x ssa.Value, depth int) bool
+							isFound = func(x ssa.Value, depth int) bool {
+								if depth > 3 {
+									return false
+								}
+								if phi, ok := x.(*ssa.Phi); ok {
+									n := 0
+									for _, pe := range phi.Edges {
+										if kc, isC := pe.(*ssa.Const); isC && kc.Value != nil && kc.Value.ExactString() == "false" {
+											continue
+										}
+										if !isFound(pe, depth+1) {
+											return false
+										}
+										n++
+									}
+									return n > 0
+								}
+								ex, ok := x.(*ssa.Extract)
+								if !ok || ex.Index != 1 {
+									return false
+								}
+								lk, ok := ex.Tuple.(*ssa.Lookup)
+								if !ok || !lk.CommaOk || an.AP(lk.Index) != an.AP(e.(ssa.Value)) {
+									return false
+								}
+								base, isH := fieldLoadOf(lk.X, a.NodeT, a.FHandlers)
+								return isH && base == an.AP(vnode)
+							}
+							if !isFound(vv, 0) {
+								return false
+							}
+							return (onTrue != neg) == false // the not-found edge
+						},
+						Target: func(t ssa.Instruction) bool {
+							if t == e {
+								return true
+							}
+							r, ok := t.(*ssa.Return)
+							return ok && an.IsSuccessReturn(r)
+						},
+					}
+					if q.Search(an.After(e)) != nil {
+						good = false
+					}
+				}
+			}
+			if good {
+				okSite = true
+			}
+		})
+		if !okSite {
+			return false
+		}
+	}
+	return true
 }
 
 // ruleValidateBeforeMutate is C17.R1: no observable registration state changes
@@ -312,6 +499,95 @@ func ruleValidateBeforeMutate(c *Ctx, rule string) {
 	if n == 0 {
 		an.Fatalf("UNRESOLVED anchor: no registration-state mutation reachable from %s", an.FuncKey(a.TreeAdd))
 	}
+	// the structure of the tree is registration state too: once the nodes of the pattern were created or split (a
+	// split changes the order of equal-priority siblings, hence dispatch) the registration must not be rejected any
+	// more. Errors of the structure-building call itself are its own business (a pattern that passed the syntax and
+	// ambiguity checks builds); any *later* error exit of Tree.Add is a rejection after the change.
+	restructures := map[*ssa.Function]bool{}
+	for changed := true; changed; {
+		changed = false
+		for f := range reach {
+			if restructures[f] || len(f.Blocks) == 0 {
+				continue
+			}
+			an.AllInstrs(f, func(in ssa.Instruction) {
+				if restructures[f] {
+					return
+				}
+				if base, field, _, ok := fieldStore(in, a.NodeT); ok && field == a.FChildren && !strings.HasPrefix(base, "alloc:") {
+					restructures[f] = true
+					changed = true
+					return
+				}
+				if call := an.CallOf(in); call != nil {
+					if g2 := an.StaticCallee(call); g2 != nil && restructures[g2] {
+						restructures[f] = true
+						changed = true
+					}
+				}
+			})
+		}
+	}
+	add := a.TreeAdd
+	an.AllInstrs(add, func(in ssa.Instruction) {
+		call, ok := in.(*ssa.Call)
+		if !ok {
+			return
+		}
+		g2 := an.StaticCallee(&call.Call)
+		if g2 == nil || !restructures[g2] {
+			return
+		}
+		ownErr := func(v ssa.Value) bool {
+			ex, ok := v.(*ssa.Extract)
+			return ok && ex.Tuple == ssa.Value(call)
+		}
+		q := &an.Query{
+			Facts: true,
+			Assume: func(cond ssa.Value) (bool, bool) {
+				x, k, eq, ok := an.CondAtom(cond)
+				if ok && k.Value == nil && ownErr(x) {
+					return eq, true // the structure was built: its own error is nil
+				}
+				return false, false
+			},
+			Target: func(t ssa.Instruction) bool {
+				r, ok := t.(*ssa.Return)
+				if !ok || t.Parent() != add {
+					return false
+				}
+				ei := an.ErrorResultIndex(add)
+				if ei < 0 {
+					return false
+				}
+				v := an.ReturnValue(r, ei)
+				if ownErr(v) {
+					return false
+				}
+				if an.IsErrorReturn(r) {
+					return true
+				}
+				if ex, isEx := v.(*ssa.Extract); isEx {
+					v = ex.Tuple
+				}
+				if c2, isCall := v.(*ssa.Call); isCall {
+					if g3 := an.StaticCallee(&c2.Call); g3 != nil && an.InModule(g3) {
+						for _, rr := range an.Returns(g3) {
+							if an.IsErrorReturn(rr) {
+								return true
+							}
+						}
+					}
+				}
+				return false
+			},
+		}
+		path := q.Search(an.After(in))
+		o := c.R.Add(rule, c.fk(add), "call:"+an.FuncKey(g2)+"/structure-built/then-error-return", c.pos(in), path == nil, ifelse(path == nil, "once the nodes of the pattern exist the registration can no longer be rejected", "the nodes of the pattern are created (existing nodes split) and the registration can still be rejected afterwards (method validation): the rejected Handle has changed the order of equal-priority siblings, so requests that went to one route now go to another while Routes() is unchanged"))
+		if path != nil {
+			o.Path = c.P.PathString(path)
+		}
+	})
 }
 
 // ruleAddErrorNeverDropped is C17.R3.
